@@ -23,6 +23,7 @@ func init() {
 }
 
 func runC17(c *Ctx) {
+	c.Assumptions = append(c.Assumptions, "time.Duration arithmetic does not overflow for configured timeouts", "utils.Timer fires its callback at most once")
 	c.Rule("C17.R1", "header finalisation order route -> vhost -> global; add before remove; append joins", 6)
 	c.Rule("C17.R2", "direct response / redirect reply with the rule's values and return before any pool is touched", 5)
 	c.Rule("C17.R3", "retry is decided before the response is marked started; reset retries only before the response started", 5)
